@@ -575,3 +575,7 @@ pub fn check_forced(c: &ForcedCase, ctx: &mut Ctx) -> Result<(), String> {
     ctx.sample(|| serde_json::json!({"fen": c.fen, "cycle": c.cycle, "depth": c.depth, "static_eval_for_mover": static_v}));
     Ok(())
 }
+
+pub fn shuffle_quad_pub(p: &Pos, skip: u16) -> Option<[Mv; 4]> {
+    shuffle_quad(p, skip)
+}
